@@ -4,6 +4,7 @@ mod errors;
 mod fmtrun;
 mod lexrun;
 mod literal;
+mod purity;
 mod render;
 mod rqjson;
 mod run;
@@ -29,6 +30,7 @@ fn main() {
         "literal" => literal::main(&args[1..]),
         "errors" => errors::main(&args[1..]),
         "totality" => totality::main(&args[1..]),
+        "purity" => purity::main(&args[1..]),
         "number" => literal::main_numbers(&args[1..]),
         "ident" => literal::main_idents(&args[1..]),
         "lexlist" => lexrun::main_list(&args[1..]),
